@@ -1,5 +1,5 @@
 (** Pins/C17.v — the statements of the C17 theorems, pinned. *)
-From PdfV Require Import Base.Prelude Gen.Generated XRef.Model XRef.Spec XRef.HeaderProofs XRef.FrontProofs XRef.LexShift XRef.At XRef.ParseShift XRef.PrefixProofs Syn.Prim Syn.Parser Properties.C17.
+From PdfV Require Import Base.Prelude Gen.Generated XRef.Model XRef.Spec XRef.HeaderProofs XRef.FrontProofs XRef.LexShift XRef.At XRef.ParseShift XRef.PrefixProofs XRef.AtProofs Syn.Prim Syn.Parser Properties.C17.
 Set Warnings "-notation-overridden".   (* also ends the import list for the dependency scanner of tools/vplib *)
 
 Check C17_marker_first_occurrence : forall pat p s, pat <> [] -> no_border pat = true ->
@@ -59,3 +59,17 @@ Check C17_tables_invariant : forall (R : resolver) (tid : dict -> N) allow flags
   (forall t fuel id,
      resolve_ref prim (obj_at_parse R allow flags) (fun _ _ _ => Err E_OTHER) fuel (p ++ f) (lenN p) t id
      = rmap (shift_prim (lenN p)) (resolve_ref prim (obj_at_parse R allow flags) (fun _ _ _ => Err E_OTHER) fuel f 0 t id)).
+Check C17_resolve_latest_prefixed : forall R tid allow (p file : bytes) (h : history) secss q0 secs0 d0 older size,
+  (forall e, tid (shift_dict (lenN p) e) = tid e) ->
+  find_sub xr_header p = None -> lenN p + lenN xr_header <= xr_header_window -> lenN (p ++ file) < usize_max ->
+  Forall2 represents secss h -> wf_history h ->
+  map snd ((q0, secs0) :: older) = rev secss ->
+  starts_with xr_header file = true -> startxref_at file q0 ->
+  section_at file q0 secs0 d0 -> t_size (tinfo_of tid d0) = Some size -> size <= xr_max_id ->
+  chain_at tid file 0 (t_prev (tinfo_of tid d0)) older -> NoDup (map fst older) ->
+  (forall n g pos, latest h n = Some (Direct g pos) -> exists v, object_at file pos n g v) ->
+  (forall n s i, latest h n <> Some (Compressed s i)) ->
+  exists t, load (xref_at_tables R tid) (p ++ file) = Ok (lenN p, t, tid d0) /\
+    forall n fuel, n < size ->
+      stored_shifted (lenN p) file n (latest h n)
+        (resolve_ref prim (obj_at_parse R allow F_ANY) (fun _ _ _ => Err E_OTHER) (S fuel) (p ++ file) (lenN p) t n).
